@@ -1001,10 +1001,8 @@ theorem Sparse.setSubscripts_refines {S : Sparse α} {m : MArr α} (h : SRel S m
 
 /-! ### reads through `extract` -/
 
-theorem extract_lookup {S : Sparse α} (hS : S.WF) (r : List Nat) :
-    (match lastIdxOfN S.subs r with
-      | some k => S.vals.getD k 0
-      | none => 0) = S.get r := by
+theorem extract_lookup {S : Sparse α} (hS : S.WF) (r : List Nat) : S.lookup r = S.get r := by
+  unfold Sparse.lookup
   cases hl : lastIdxOfN S.subs r with
   | none => exact (Sparse.get_of_not_mem S r (lastIdxOfN_eq_none.1 hl)).symm
   | some k =>
@@ -1045,9 +1043,10 @@ theorem Sparse.getItem_subs {S : Sparse α} {m : MArr α} (h : SRel S m) (rows :
   | nil => rfl
   | cons r0 rest =>
     simp only [List.isEmpty_cons, Bool.false_eq_true, ↓reduceIte, false_or, bind, Except.bind]
-    split
-    · rfl
-    · simp [Except.map, sp_subsubsref_eq]
+    by_cases hb : ((r0 :: rest).any fun r => !inBounds m.shape r) = true
+    · rw [if_pos hb, if_pos hb]; rfl
+    · rw [if_neg hb, if_neg hb]
+      simp only [Except.map, sp_subsubsref_eq]
 
 /-- Reading through linear indices from a sparse tensor (an integer index must not lie
 below `-cells`: the code wraps a negative integer twice). -/
